@@ -106,6 +106,11 @@ def quorumMatch (o : Obs) : Option Nat :=
 def judgeHWQuorum (isQuorumReceipt : Bool) (prev cur : Obs) : Bool :=
   isQuorumReceipt || cur.hw ≤ prev.hw || quorumMatch cur == some cur.hw
 
+def consecutive : List Nat → Bool
+  | [] => true
+  | [_] => true
+  | a :: b :: rest => b == a + 1 && consecutive (b :: rest)
+
 /-- every reply answers a waiter that was pending before the event and is not pending
     after it, no op is answered twice by one decision (⇒ at most one answer per admission
     over any history), and a successful answer to a quorum-mode waiter is covered by HW. -/
@@ -124,6 +129,13 @@ def judgeReplies (prev cur : Obs) : String :=
          | some t => cur.hw < t
          | none => true)
      | none => true))
-  if bad then "viol:quorum-reply-not-covered-by-hw" else "ok"
+  if bad then "viol:quorum-reply-not-covered-by-hw" else
+  -- a successful reply carries exactly the waiter's records, at consecutive sequences
+  let shape := cur.replies.any (fun r =>
+    r.err == "ok" &&
+    (match prev.pending.find? (fun w => w.op == r.op) with
+     | some w => r.seqs.length != w.nrec || !consecutive r.seqs
+     | none => true))
+  if shape then "viol:reply-items-do-not-match-waiter-records" else "ok"
 
 end WK.C06
